@@ -2,7 +2,7 @@
   Driver.Strategies — line protocol for the strategies family (C18, and `hint_honoured` of C20).
 
   One request per line, one answer line per request.  Rationals are written `num/den` or `num`
-  (exact values of Python floats via `float.as_integer_ratio()`); possibly non-finite values
+  (exact values of Python floats via `float.as_integer_ratio()`) or `2^-k`; possibly non-finite values
   are `nan | inf | -inf | <rat>`; absent values are `none`.
 
   Model values (answer: `num/den`):
@@ -37,6 +37,10 @@ namespace Driver.Strategies
 open Redress.Strategies
 
 def parseRat (s : String) : Option Rat :=
+  if s.startsWith "2^-" then do
+    let k ← (s.drop 3).toNat?
+    pure (mkRat 1 (2 ^ k))
+  else
   match s.splitOn "/" with
   | [n] => do pure ((← n.toInt?) : Rat)
   | [n, d] => do
